@@ -51,6 +51,9 @@ namespace PSC {
         // Only for composites
         void copyVariableData(const Context &other);
 
+        // Only for composites: same fields of the same types, in the same order, all the way down
+        bool hasSameLayout(const Context &other) const;
+
         ~Context();
 
         static std::unique_ptr<Context> createGlobalContext();
